@@ -240,6 +240,43 @@ def c17_round(work, binary, verdict, st, tag, offsets, comps, pts, samples):
         samples.append({"pair": pairs[0], "real": pairsreal[0]})
 
 
+C17_OBJ = ["ComponentFollows", "PriorityFollowsState", "TypePrefExact", "LocalPrefAgrees", "PriorityAgrees"]
+
+
+def c17_object(work, binary, verdict, st, tier, rng, samples):
+    """PriorityObj: every sequence of SetComponent / attach steps on ONE candidate object, getters read after each step."""
+    offs = sorted({0, 27, 100, 127, rng.randrange(1, 127)}) if tier == "quick" else sorted({0, 1, 27, 100, 101, 126, 127, 4096, 65535, rng.randrange(1, 127)})
+    write_mc(work, "MCPriorityObj", "PriorityObj", {},
+             {"CompSet": "= {1, 2, 256}" if tier == "quick" else "= {1, 2, 255, 256}", "OffSet": "= {%s}" % ", ".join(map(str, offs)),
+              "MaxOps": "= 3", "RunFile": q("objruns.ndjson")}, "RangeOK")
+    g = run_tlc(work, "MCPriorityObj", "C17 candidate-object specification", timeout=900)
+    st.add("states", g.distinct)
+    st.add("transitions", g.generated)
+    drive(binary, "TestPriorityObj", {"Runs": work.path("objruns.ndjson"), "Out": work.path("objreal.ndjson")}, work)
+    write_mc(work, "MCPriorityObjMon", "PriorityObjMon", {}, {"RunFile": q("objruns.ndjson"), "RunRealFile": q("objreal.ndjson"), "Check": tset(C17_OBJ)}, "Report")
+    r = run_tlc(work, "MCPriorityObjMon", "C17 candidate-object monitor", timeout=900)
+    runs, real = v.read_ndjson(work.path("objruns.ndjson")), v.read_ndjson(work.path("objreal.ndjson"))
+    if r.distinct != len(runs) or len(real) != len(runs):
+        raise v.Inconclusive("C17 object runs: monitor states %d do not match the %d runs" % (r.distinct, len(runs)))
+    st.add("monitor_states", r.distinct)
+    st["object_runs"] = len(runs)
+    st["object_readings_compared"] = sum(len(x["exp"]) for x in runs)
+    seen = set()
+    for name, _kind, idx, k, a, b, last in viols(r.out):
+        idx, k = int(idx), int(k)
+        feat = {"predicate": name, "kind": "object", "typ": a, "net": b, "after": last, "reading": "first" if k == 1 else "later"}
+        key = json.dumps(feat, sort_keys=True)
+        if key in seen:      # one report per shape of failure, not one per run
+            continue
+        seen.add(key)
+        payload = {"run": runs[idx - 1], "real_reads_[tp,lp,prio_le_bytes x4,component]": real[idx - 1]["reads"], "reading": k}
+
+        def writer(path, payload=payload, name=name):
+            json.dump({"property": "C17", "family": "pure", "predicate": name, "case": payload}, open(path, "w"))
+        verdict.report(feat, writer)
+    samples.append({"object_run": runs[len(runs) // 2], "real": real[len(runs) // 2]})
+
+
 def apalache(work, st):
     """Extra: SMT proof of the pair-priority laws for all uint32 (never decides the verdict about the code)."""
     out = work.path("apalache")
@@ -271,9 +308,11 @@ def c17(tier, seed):
             for k in range(8):
                 c17_round(work, binary, verdict, st, "t%d" % k, "%d..%d" % (k * 8192, k * 8192 + 8191), [1, 256], BOUNDARY[:2], samples)
             st["exhaustive"] = True
+        c17_object(work, binary, verdict, st, tier, rng, samples)
         apalache(work, st)
-    st["traces_validated_against_impl"] = st["candidate_cases_compared"] + st["pair_cases_compared"] + st["foundation_pairs_compared"]
-    st["predicates"] = C17_PREDS
+    st["traces_validated_against_impl"] = (st["candidate_cases_compared"] + st["pair_cases_compared"] + st["foundation_pairs_compared"]
+                                           + st["object_readings_compared"])
+    st["predicates"] = sorted(set(C17_PREDS + C17_OBJ))
     return finish(verdict, st, samples,
                   ["candidates are built through the public constructors and attached to an agent configured with the offset (VerifAttachCandidate) without sockets",
                    "pair priority through newCandidatePair(...).priority() on mirrored pairs with overridden candidate priorities; priority 0 is not "
@@ -318,7 +357,10 @@ def stratified(cands, rng, groups, per):
     idx = []
     for k in chosen:
         idx += rng.sample(by[k], min(per, len(by[k])))
-    return sorted(idx)
+    # every extension list over the duplicate pool (repeated keys, repeated entries) on one transport: multiset comparison both ways
+    dup = [i for i, c in enumerate(cands) if (c["typ"], c["net"], c["addr"], c["rel"]) == ("srflx", "udp", "10.0.0.1", normal)
+           and len(c["ext"]) >= 2 and all(e["k"] in ("generation", "network-cost") and e["v"] in ("0", "1", "10") for e in c["ext"])]
+    return sorted(set(idx + dup))
 
 
 def c16(tier, seed):
